@@ -239,18 +239,25 @@ def replay(c):
     elif c.get('prog') is None: return None, 'program not recorded'
     else: prog = bytes.fromhex(c['prog'])
     if md is None: return True, 'structural'
-    mem = bytes(md.get('mem_bytes', [])) + bytes(max(0, md['mem_len'] - len(md.get('mem_bytes', []))))
-    mbuff = bytes(md.get('mbuff_bytes', [])) + bytes(max(0, md['mbuff_len'] - len(md.get('mbuff_bytes', []))))
+    mem = bytes(md.get('mem_bytes', [])) + bytes(max(0, min(md['mem_len'], 4096) - len(md.get('mem_bytes', []))))
+    mbuff = bytes(md.get('mbuff_bytes', [])) + bytes(max(0, min(md['mbuff_len'], 4096) - len(md.get('mbuff_bytes', []))))
     d = Driver.get('dev'); res = {}
+    helpers = [tuple(h) for h in c.get('helpers', [])]
+    if 'misaligned' in c['role']: helpers = [(k_, 'rsp') for k_, _ in helpers]      # assembly probe returning (rsp + 8) & 15 at its entry
     for eng in ('interp', 'jit'):
-        res[eng] = d.run(prog, vm=c.get('vm', 'mbuff'), mem=mem, mbuff=mbuff, engine=eng, helpers=[tuple(h) for h in c.get('helpers', [])], fixed=c.get('fixed'))
+        res[eng] = d.run(prog, vm=c.get('vm', 'mbuff'), mem=mem, mbuff=mbuff, engine=eng, helpers=helpers, fixed=c.get('fixed'))
     a, b = res['interp'], res['jit']
+    if 'misaligned' in c['role']:
+        # the probe helper returns (RSP at its entry + 8) & 15, i.e. 0 iff RSP was 16-byte aligned at the call instruction;
+        # the programs of the family return helper_result (+ r6 = 0 mod 16 contributions are avoided by running with a zeroed buffer)
+        pv = d.run(prog, vm=c.get('vm', 'mbuff'), mem=bytes(len(mem)), mbuff=bytes(len(mbuff)), engine='jit', helpers=helpers, fixed=c.get('fixed'))
+        c['replay'] = dict(probe=pv.get('value'), status=pv.get('status'))
+        if pv.get('status') != 'ok': return True, f'compiled code with the alignment probe: {pv.get("status")}'
+        return (pv['value'] & 15) != 0, f'alignment probe helper returned {pv["value"]} ((rsp+8)&15 at helper entry)'
     c['replay'] = dict(mem=mem.hex(), mbuff=mbuff.hex(), results={e: {k: v for k, v in r.items() if k in ('status', 'value', 'msg', 'sig', 'mem', 'mbuff', 'hlog')} for e, r in res.items()})
     if a.get('status') != 'ok': return None, f'interpreter run is {a.get("status")}: outside the premise'
     if b.get('status') != 'ok': return True, f'interpreter returns {a["value"]:#x}; compiled code: {b.get("status")} {b.get("sig", b.get("msg"))}'
     if a['value'] != b['value']: return True, f'interpreter returns {a["value"]:#x}, compiled code {b["value"]:#x}'
     if a.get('mem') != b.get('mem') or a.get('mbuff') != b.get('mbuff'): return True, 'buffers differ'
-    if 'misaligned' in c['role']:
-        al = [h for h in b.get('hlog', []) if h[0] == 99 and h[2] != 0]
-        return (True, 'helper observed a misaligned stack') if al else (False, 'helper saw an aligned stack')
+
     return False, 'engines agree natively'
